@@ -89,10 +89,18 @@ META['C35'] = dict(
           'flat zero-based arrays whose bounds come from the Fortran shapes, by-pointer scalars) on the same symbolic inputs; z3 decides '
           'whether any input makes an output differ or a subscript leave its array; a kernel that gcc rejects is a violation; sat '
           'models are replayed END TO END: gfortran build of the original vs gfortran build of the generated ISO-C wrapper calling the '
-          'gcc-compiled kernel (ASan/UBSan), relative tolerance 1e-6.'),
-    functions=['FortranCTransformation.transform_subroutine', 'cgen / CCodegen / CCodeMapper', 'FortranISOCWrapperTransformation (replay)',
+          'gcc-compiled kernel (ASan/UBSan), relative tolerance 1e-6.  WRAPPER obligations (group iso-c-wrapper, every template + '
+          'kernels with derived-type arguments of every intent): the generated wrapper is re-read by the frontend and interpreted with '
+          'the bind(c) routine replaced by a nondeterministic stub that records what it receives and overwrites everything passed by '
+          'reference (except what the original declares INTENT(IN)) with fresh symbols; z3 / term identity decides that every input '
+          'reaches the stub unchanged, that every OUT / INOUT argument holds what the stub wrote, and the wrapper must not assign '
+          'to an INTENT(IN) dummy; TRANSFER between interoperable derived types = componentwise copy.'),
+    functions=['FortranCTransformation.transform_subroutine', 'cgen / CCodegen / CCodeMapper',
+               'FortranISOCWrapperTransformation / generate_iso_c_wrapper_routine (symbolic marshalling check + replay)',
                'shift_to_zero_indexing', 'flatten_arrays', 'resolve_vector_notation (as used by the transformation)', 'replace_intrinsics'],
-    bounds=dict(COMMON_BOUNDS, outside='derived-type arguments and header modules, cpp / cuda language variants, inlined kernels and '
-                'global variables, int overflow, float rounding (doubles are exact reals), the wrapper is exercised by the replay only'),
+    bounds=dict(COMMON_BOUNDS, outside='kernel BODIES that use derived-type arguments (csem has no struct model: their wrapper is checked, '
+                'their kernel only in the replay of a wrapper counterexample), cpp / cuda language variants, inlined kernels and '
+                'global variables, int overflow, float rounding (doubles are exact reals), use_c_ptr wrappers'),
     assumptions=COMMON_ASSUME + ['executions in which the original reads a variable before defining it are excluded',
-                                 'C semantics as modelled in vlib/fsmt/csem.py; every counterexample is confirmed by gcc + gfortran'])
+                                 'C semantics as modelled in vlib/fsmt/csem.py; every counterexample is confirmed by gcc + gfortran',
+                                 'wrapper stub contract: the C kernel writes nothing that the original declares INTENT(IN)'])
